@@ -44,6 +44,50 @@ type inlineSite struct {
 
 var objAlias = map[types.Object]types.Object{}
 
+// paramArg: parameter of a single-use adopted helper -> the argument expression it is bound to.
+var paramArg = map[types.Object]ast.Expr{}
+
+// inlinedAssign: `x := h()` statements whose helper's returns are read as the assignments.
+var inlinedAssign = map[*ast.AssignStmt]bool{}
+
+// synthAssign: the synthetic assignments standing for the returns of a helper read in place.
+var synthAssign = map[*ast.AssignStmt]bool{}
+
+// IsSelfAssign reports whether a synthetic return assignment hands a variable to itself (the
+// helper returns the very variable the caller assigns: parameter/result identification).
+func IsSelfAssign(info *types.Info, as *ast.AssignStmt, i int) bool {
+	if !synthAssign[as] || i >= len(as.Lhs) || i >= len(as.Rhs) {
+		return false
+	}
+	l, r := ObjOf(info, as.Lhs[i]), ObjOf(info, as.Rhs[i])
+	return l != nil && r != nil && sameObj(l, r)
+}
+
+// IsInlinedAssign reports whether the statement assigns the results of an adopted helper whose
+// return statements are read as the assignments (so the statement itself defines nothing).
+func IsInlinedAssign(as *ast.AssignStmt) bool { return inlinedAssign[as] }
+
+// ArgExpr sees through a parameter of an adopted single-use helper: an identifier naming
+// such a parameter is replaced by the argument expression at the helper's one call.
+func ArgExpr(info *types.Info, e ast.Expr) ast.Expr {
+	for i := 0; i < 4; i++ {
+		id, ok := Unparen(e).(*ast.Ident)
+		if !ok {
+			return e
+		}
+		o := info.Uses[id]
+		if o == nil {
+			return e
+		}
+		a, ok := paramArg[o]
+		if !ok {
+			return e
+		}
+		e = a
+	}
+	return e
+}
+
 // Rep returns the representative of an object under parameter/argument identification.
 func Rep(o types.Object) types.Object {
 	for i := 0; i < 8 && o != nil; i++ {
@@ -67,6 +111,9 @@ func isFresh(f *Func) bool {
 // adoptFresh finds the adoptable helpers and wires them into their adopters.
 func (p *Prog) adoptFresh() {
 	objAlias = map[types.Object]types.Object{}
+	paramArg = map[types.Object]ast.Expr{}
+	inlinedAssign = map[*ast.AssignStmt]bool{}
+	synthAssign = map[*ast.AssignStmt]bool{}
 	var fresh []*Func
 	for _, f := range p.funcs {
 		if isFresh(f) && f.Obj.Name() != "init" && f.Obj.Name() != "main" {
@@ -420,10 +467,48 @@ func bindArgs(user *Func, call *ast.CallExpr, h *Func) {
 			}
 		}
 	}
+	// every argument expression, for matchers that want to see through a parameter
+	{
+		idx := 0
+		if h.Type.Params != nil {
+			for _, fl := range h.Type.Params.List {
+				if len(fl.Names) == 0 {
+					idx++
+					continue
+				}
+				for _, id := range fl.Names {
+					variadic := sig != nil && sig.Variadic() && idx == sig.Params().Len()-1
+					if po := hinfo.Defs[id]; po != nil && idx < len(call.Args) && !variadic {
+						paramArg[po] = call.Args[idx]
+					}
+					idx++
+				}
+			}
+		}
+	}
 	// results
 	as, ok := user.P.parents[call].(*ast.AssignStmt)
 	if !ok || len(as.Rhs) != 1 {
 		return
+	}
+	// `x, y := h()` is x, y assigned at each return of h: a synthetic assignment stands for each
+	// return statement (in the graph and for Walk); the original statement is then no definition
+	if _, isGo := user.P.parents[call].(*ast.GoStmt); !isGo {
+		walkOwn(h.Body, func(n ast.Node) bool {
+			if r, ok := n.(*ast.ReturnStmt); ok && len(r.Results) == len(as.Lhs) {
+				if h.retSynth == nil {
+					h.retSynth = map[*ast.ReturnStmt]*ast.AssignStmt{}
+				}
+				sy := &ast.AssignStmt{Lhs: as.Lhs, Tok: token.ASSIGN, TokPos: r.Pos(), Rhs: r.Results}
+				synthAssign[sy] = true
+				h.retSynth[r] = sy
+				h.synthOrder = append(h.synthOrder, sy)
+			}
+			return true
+		})
+		if len(h.retSynth) > 0 {
+			inlinedAssign[as] = true
+		}
 	}
 	var rets []*ast.ReturnStmt
 	walkOwn(h.Body, func(n ast.Node) bool {
@@ -470,6 +555,9 @@ func bindArgs(user *Func, call *ast.CallExpr, h *Func) {
 				same = false
 				continue
 			}
+			if tv, ok := hinfo.Types[r.Results[k]]; ok && tv.IsNil() {
+				continue // a nil result names no variable
+			}
 			id, ok := Unparen(r.Results[k]).(*ast.Ident)
 			if !ok {
 				same = false
@@ -490,7 +578,7 @@ func bindArgs(user *Func, call *ast.CallExpr, h *Func) {
 
 // spliceInlined rewrites the graph of f in place: every called adopted helper's graph is
 // inserted at its call.  It returns the helpers spliced (for condition and location indexing).
-func (f *Func) spliceInlined(g *cfg.CFG, mayReturn func(*ast.CallExpr) bool, depth int, siteOf map[*cfg.Block]inlineSite) []*Func {
+func (f *Func) spliceInlined(g *cfg.CFG, mayReturn func(*ast.CallExpr) bool, depth int, siteOf map[*cfg.Block]inlineSite, extraConds map[ast.Expr]bool) []*Func {
 	var done []*Func
 	if depth > 3 {
 		return nil
@@ -536,7 +624,56 @@ func (f *Func) spliceInlined(g *cfg.CFG, mayReturn func(*ast.CallExpr) bool, dep
 		cont := &cfg.Block{Nodes: append([]ast.Node{}, blk.Nodes[at:]...), Succs: blk.Succs, Index: next, Live: true, Kind: blk.Kind, Stmt: blk.Stmt}
 		next++
 		blk.Nodes = blk.Nodes[:at:at]
-		blk.Succs = []*cfg.Block{hg.Blocks[0]}
+		// a call inside a short-circuit condition runs only when the operands before it let it:
+		// `A && h()` is split into the test of A and, on its true branch, the test of h()
+		entryFrom := blk
+		for len(cont.Nodes) == 1 && len(cont.Succs) == 2 {
+			e, ok := cont.Nodes[0].(ast.Expr)
+			if !ok {
+				break
+			}
+			b, ok := Unparen(e).(*ast.BinaryExpr)
+			if !ok || (b.Op != token.LAND && b.Op != token.LOR) {
+				break
+			}
+			inX := false
+			ast.Inspect(b.X, func(m ast.Node) bool {
+				if m == ast.Node(site.call) {
+					inX = true
+				}
+				return !inX
+			})
+			// second operand's block
+			by := &cfg.Block{Nodes: []ast.Node{b.Y}, Succs: cont.Succs, Index: next, Live: true, Kind: cont.Kind, Stmt: cont.Stmt}
+			next++
+			bx := &cfg.Block{Nodes: []ast.Node{b.X}, Index: next, Live: true, Kind: cont.Kind, Stmt: cont.Stmt}
+			next++
+			if b.Op == token.LAND {
+				bx.Succs = []*cfg.Block{by, cont.Succs[1]}
+			} else {
+				bx.Succs = []*cfg.Block{cont.Succs[0], by}
+			}
+			extraConds[b.X] = true
+			extraConds[b.Y] = true
+			g.Blocks = append(g.Blocks, bx, by)
+			if inX {
+				// the call is in the first operand: it runs now, the first operand's test is the continuation
+				cont = bx
+			} else {
+				// the first operand is tested first; the helper runs on the way to the second
+				entryFrom.Succs = []*cfg.Block{bx}
+				entryFrom = &cfg.Block{Index: next, Live: true, Kind: cont.Kind, Stmt: cont.Stmt}
+				next++
+				g.Blocks = append(g.Blocks, entryFrom)
+				if b.Op == token.LAND {
+					bx.Succs[0] = entryFrom
+				} else {
+					bx.Succs[1] = entryFrom
+				}
+				cont = by
+			}
+		}
+		entryFrom.Succs = []*cfg.Block{hg.Blocks[0]}
 		// is the call the branch condition itself (possibly negated)?
 		negated, isCond := false, false
 		if len(cont.Nodes) == 1 && len(cont.Succs) == 2 {
@@ -548,6 +685,20 @@ func (f *Func) spliceInlined(g *cfg.CFG, mayReturn func(*ast.CallExpr) bool, dep
 				isCond = x == ast.Expr(site.call)
 			}
 		}
+		// is the call's error result tested by the branch that ends the continuation block?
+		// (`x, err := h(); if err != nil {...}`): helper returns whose error is known to be nil
+		// continue on the nil branch only, those known to be non-nil on the other.
+		errIdx, nilSucc := -1, -1
+		if len(cont.Nodes) >= 2 && len(cont.Succs) == 2 {
+			errIdx, nilSucc = errCorrelation(f.Info(), cont.Nodes, site.call)
+		}
+		var contNil, contErr *cfg.Block
+		mk := func(succ int) *cfg.Block {
+			b := &cfg.Block{Nodes: cont.Nodes, Succs: []*cfg.Block{cont.Succs[succ]}, Index: next, Live: true, Kind: cont.Kind, Stmt: cont.Stmt}
+			next++
+			return b
+		}
+		var hcf *CFG
 		// deferred calls of the helper, in registration order
 		type dfr struct {
 			stmt *ast.DeferStmt
@@ -622,8 +773,12 @@ func (f *Func) spliceInlined(g *cfg.CFG, mayReturn func(*ast.CallExpr) bool, dep
 			if ret != nil {
 				// the return statement becomes the evaluation of its results
 				hb.Nodes = hb.Nodes[:len(hb.Nodes)-1]
-				for _, r := range ret.Results {
-					hb.Nodes = append(hb.Nodes, r)
+				if sy := h.retSynth[ret]; sy != nil {
+					hb.Nodes = append(hb.Nodes, sy)
+				} else {
+					for _, r := range ret.Results {
+						hb.Nodes = append(hb.Nodes, r)
+					}
 				}
 				if isCond && len(ret.Results) == 1 {
 					if tv, ok := info.Types[ret.Results[0]]; ok && tv.Value != nil {
@@ -635,6 +790,23 @@ func (f *Func) spliceInlined(g *cfg.CFG, mayReturn func(*ast.CallExpr) bool, dep
 						}
 					}
 				}
+				if errIdx >= 0 && errIdx < len(ret.Results) {
+					if hcf == nil {
+						hcf = h.CFG()
+					}
+					switch errClass(hcf, ret, ret.Results[errIdx]) {
+					case 1: // nil
+						if contNil == nil {
+							contNil = mk(nilSucc)
+						}
+						target = contNil
+					case 2: // non-nil
+						if contErr == nil {
+							contErr = mk(1 - nilSucc)
+						}
+						target = contErr
+					}
+				}
 			}
 			for i := len(defers) - 1; i >= 0; i-- {
 				if dominates(defers[i].blk, hb) {
@@ -643,7 +815,21 @@ func (f *Func) spliceInlined(g *cfg.CFG, mayReturn func(*ast.CallExpr) bool, dep
 			}
 			hb.Succs = []*cfg.Block{target}
 		}
-		g.Blocks = append(g.Blocks, cont)
+		already := false
+		for _, b := range g.Blocks {
+			if b == cont {
+				already = true
+			}
+		}
+		if !already {
+			g.Blocks = append(g.Blocks, cont)
+		}
+		if contNil != nil {
+			g.Blocks = append(g.Blocks, contNil)
+		}
+		if contErr != nil {
+			g.Blocks = append(g.Blocks, contErr)
+		}
 		g.Blocks = append(g.Blocks, hg.Blocks...)
 		done = append(done, h)
 	}
@@ -780,3 +966,109 @@ func (c *CFG) GuardedAt(l Loc, pred func(Fact) bool) bool {
 
 // DominatingCondsAt is DominatingConds for exactly the location l.
 func (c *CFG) DominatingCondsAt(l Loc) []CondEdge { return c.dominatingCondsExact(l) }
+
+// errCorrelation recognises `..., err := call` (first node) followed, at the end of the same
+// block, by the branch condition `err != nil` or `err == nil`; it returns the index of the
+// error among the call's results and the successor taken when the error is nil.
+func errCorrelation(info *types.Info, nodes []ast.Node, call *ast.CallExpr) (errIdx, nilSucc int) {
+	errIdx, nilSucc = -1, -1
+	var lhs []ast.Expr
+	switch s := nodes[0].(type) {
+	case *ast.AssignStmt:
+		if len(s.Rhs) != 1 || Unparen(s.Rhs[0]) != ast.Expr(call) {
+			return
+		}
+		lhs = s.Lhs
+	default:
+		return
+	}
+	cond, ok := nodes[len(nodes)-1].(ast.Expr)
+	if !ok {
+		return
+	}
+	b, ok := Unparen(cond).(*ast.BinaryExpr)
+	if !ok || (b.Op != token.NEQ && b.Op != token.EQL) {
+		return
+	}
+	x, y := Unparen(b.X), Unparen(b.Y)
+	isNilE := func(e ast.Expr) bool { tv, ok := info.Types[e]; return ok && tv.IsNil() }
+	if isNilE(x) {
+		x, y = y, x
+	}
+	if !isNilE(y) {
+		return
+	}
+	xo := ObjOf(info, x)
+	if xo == nil || xo.Type() == nil || xo.Type().String() != "error" {
+		return
+	}
+	for k, l := range lhs {
+		if lo := ObjOf(info, l); lo != nil && lo == xo {
+			errIdx = k
+		}
+	}
+	if errIdx < 0 {
+		return
+	}
+	// nothing between the call and the test assigns the error again
+	for _, n := range nodes[1 : len(nodes)-1] {
+		bad := false
+		ast.Inspect(n, func(m ast.Node) bool {
+			if as, ok := m.(*ast.AssignStmt); ok {
+				for _, l := range as.Lhs {
+					if lo := ObjOf(info, l); lo != nil && lo == xo {
+						bad = true
+					}
+				}
+			}
+			return !bad
+		})
+		if bad {
+			return -1, -1
+		}
+	}
+	if b.Op == token.NEQ {
+		nilSucc = 1
+	} else {
+		nilSucc = 0
+	}
+	return
+}
+
+// errClass classifies the error a return statement of a helper hands back: 1 nil, 2 known
+// non-nil (a fresh error, or a variable tested non-nil on every path to the return), 0 unknown.
+func errClass(hcf *CFG, ret *ast.ReturnStmt, e ast.Expr) int {
+	info := hcf.F.Info()
+	e = Unparen(e)
+	if tv, ok := info.Types[e]; ok && tv.IsNil() {
+		return 1
+	}
+	if call, ok := e.(*ast.CallExpr); ok {
+		switch CalleeName(info, call) {
+		case "fmt.Errorf", "errors.New":
+			return 2
+		}
+		return 0
+	}
+	o := ObjOf(info, e)
+	if o == nil {
+		return 0
+	}
+	loc := hcf.LocOf(ret)
+	if !loc.Valid() {
+		return 0
+	}
+	if ok, _ := hcf.Guarded(loc, func(ft Fact) bool {
+		x, isNil, ok := ft.NilFact()
+		return ok && !isNil && IsObj(info, x, o)
+	}); ok {
+		return 2
+	}
+	if ok, _ := hcf.Guarded(loc, func(ft Fact) bool {
+		x, isNil, ok := ft.NilFact()
+		return ok && isNil && IsObj(info, x, o)
+	}); ok {
+		return 1
+	}
+	return 0
+}
